@@ -13,16 +13,16 @@ import c01, c03, c05
 
 def base_programs(tier, sd):
     progs = []
-    want = {"nest", "nest3", "for", "select", "select-edge", "elseif", "random", "err"}
+    want = {"nest", "nest3", "for", "select", "select-edge", "elseif", "random", "err", "empty"}
     for c in c01.cases(tier, sd):
         f = c["fam"].split(":")[0]
         if f in want:
             progs.append(c)
     for c in c05.cases(tier, sd):
-        if c["fam"].startswith(("goto-loop", "goto-frames", "gosub", "trap:div")):
+        if c["fam"].startswith(("goto-loop", "goto-frames", "goto-select", "gosub", "trap:div")):
             progs.append(c)
     for c in c03.cases(tier, sd):
-        if c["fam"].startswith(("recursion", "locals", "static:DV")):
+        if c["fam"].startswith(("recursion", "locals", "static:DV", "for-header-calls", "exit")):
             progs.append(c)
     if tier == "quick":
         import random
@@ -31,10 +31,10 @@ def base_programs(tier, sd):
         rest = [c for c in progs if c["fam"].split(":")[0] not in ("nest", "for")]
         rng.shuffle(rest)
         rng.shuffle(keep)
-        edge = [c for c in rest if c["fam"].startswith(("select-edge", "elseif"))]
-        frames = [c for c in rest if c["fam"].startswith("goto-frames")]
-        rest = [c for c in rest if not c["fam"].startswith(("select-edge", "elseif", "goto-frames"))]
-        progs = keep[:500] + rest[:560] + edge[:200] + frames
+        edge = [c for c in rest if c["fam"].startswith(("select-edge", "elseif", "empty"))]
+        frames = [c for c in rest if c["fam"].startswith(("goto-frames", "goto-select", "for-header-calls", "exit"))]
+        rest = [c for c in rest if not c["fam"].startswith(("select-edge", "elseif", "empty", "goto-frames", "goto-select", "for-header-calls", "exit"))]
+        progs = keep[:500] + rest[:560] + edge[:260] + frames
     for i, c in enumerate(progs):
         c["id"] = i + 1
     return progs
